@@ -591,7 +591,7 @@ func TestC20V1(t *testing.T) {
 // ---- units: a real workload in a real v1 group -------------------------------------------------------------------
 
 func TestC20Units(t *testing.T) {
-	rec := vh.NewRecorder(t, "C20", "exploration", "units part: a helper burns ~250 ms CPU and touches 48 MiB inside a fresh v1 group; CPUUsage() must be in [1e8, 3e9] (nanoseconds) and MemoryMaxUsage() in [48 MiB, 96 MiB] (bytes)")
+	rec := vh.NewRecorder(t, "C20", "exploration", "units part: a helper burns ~250 ms CPU and touches 48 MiB inside a fresh v1 group; CPUUsage() must be in [1e8, 1e11] (nanoseconds; microseconds would read 2.5e5) and MemoryMaxUsage() in [48 MiB, 96 MiB] (bytes)")
 	defer rec.Write()
 	if cgroup.DetectedCgroupType != cgroup.TypeV1 {
 		t.Skip("host hierarchy is not v1")
@@ -628,7 +628,7 @@ func TestC20Units(t *testing.T) {
 			vh.Report(t, rec, round, vh.Violf("C20:reader-failed", "CPUUsage %v MemoryMaxUsage %v", err1, err2))
 			continue
 		}
-		if cpu < 100_000_000 || cpu > 3_000_000_000 {
+		if cpu < 100_000_000 || cpu > 100_000_000_000 { // microseconds would read ~2.5e5; the upper bound only has to exclude a finer unit (a loaded machine adds kernel time)
 			vh.Report(t, rec, round, vh.Violf("C20:units", "CPUUsage() = %d for ~250 ms of CPU: not nanoseconds", cpu))
 		}
 		if mem < 48<<20 || mem > 96<<20 {
